@@ -66,8 +66,13 @@ RULES = {
     "tensors *above* the threshold become external and the others - one of exactly the threshold size included - stay inline; `>=` / "
     "`<` moves that tensor to the data file (an already-external tensor of that size is re-externalised instead of coming back inline, "
     "a zero-size tensor with threshold 0 becomes a zero-length external tensor)",
+    "R16": "whether a destination exists is asked of the file system, path by path: a function of the save path that raises FileExistsError "
+    "decides it from `os.path.exists` / `lexists` / `isfile` (or a stat) of the full destination path - not from membership in a "
+    "directory listing (`os.listdir`, `os.scandir`, `glob`): a shard path with a directory part (`weights/model-00001-of-00002.data`) "
+    "is never an entry of the listing of the base directory, so existing shards in a sub-directory go unnoticed and an in-place re-save "
+    "overwrites a file that an external tensor planned for a later shard still reads - its bytes come back wrong",
 }
-FLOORS = {"R1": 4, "R2": 4, "R3": 20, "R4": 1, "R5": 3, "R6": 25, "R7": 1, "R8": 2, "R9": 1, "R10": 1, "R11": 2, "R12": 3, "R13": 1, "R14": 2, "R15": 2}
+FLOORS = {"R1": 4, "R2": 4, "R3": 20, "R4": 1, "R5": 3, "R6": 25, "R7": 1, "R8": 2, "R9": 1, "R10": 1, "R11": 2, "R12": 3, "R13": 1, "R14": 2, "R15": 2, "R16": 1}
 EXPLANATION = (
     "Class-qualified effect summaries of the try bodies and finally blocks of the two save entry points; data-flow "
     "checks on the initializer collection loops and on the offset accumulators; table agreement between the "
@@ -656,7 +661,32 @@ def rule_r15(ctx):
     ctx.require(n >= 2, f"only {n} comparisons with size_threshold_bytes found in the save path")
 
 
+def rule_r16(ctx):
+    n = 0
+    for m in ctx.repo.pkg_modules():
+        if not (m.name in ("onnx_ir.external_data", "onnx_ir._io") or m.name.startswith("onnx_ir._safetensors")) or m.name.endswith("_test"):
+            continue
+        for f in ctx.repo.live(m.all_funcs):
+            if isinstance(f.node, ast.Lambda):
+                continue
+            raises = [r for r in own_nodes(f.node) if isinstance(r, ast.Raise) and r.exc is not None and "FileExistsError" in norm(r.exc)]
+            if not raises:
+                continue
+            n += 1
+            asks = [c for c in calls_in(f) if (dotted_of(c.func) or "") in ("os.path.exists", "os.path.lexists", "os.path.isfile", "os.stat", "os.lstat")
+                    or (isinstance(c.func, ast.Attribute) and c.func.attr in ("exists", "is_file"))]
+            lists = [c for c in calls_in(f) if (dotted_of(c.func) or "") in ("os.listdir", "os.scandir", "glob.glob", "glob.iglob") or (isinstance(c.func, ast.Attribute) and c.func.attr in ("iterdir", "glob"))]
+            ok = bool(asks) and not lists
+            ctx.check("R16", f"{f.local}: the collision test asks the file system about each destination path", ok, f, (lists or raises)[0],
+                      f"{f.local} decides that a destination exists from `{norm(lists[0])[:50] if lists else 'no existence test'}`: a listing of one directory does not contain the shard paths that have a "
+                      "directory part, so files that exist there are not noticed and are overwritten while tensors of the model still read from them",
+                      how="functions of the save path that raise FileExistsError: os.path.exists / lexists / isfile / stat present, no directory listing",
+                      construct="existence decided from a directory listing")
+    ctx.require(n >= 1, "no function raising FileExistsError found in the save path")
+
+
 def run(ctx):
+    rule_r16(ctx)
     rule_r15(ctx)
     c04.rule_r9(ctx, rule="R14", consequence="; an external initializer loaded back from the data file then differs from the one that was saved")
     rule_r13(ctx)
